@@ -148,26 +148,63 @@ try:
 except Exception as e:
     obs["solve_error"] = type(e).__name__
     obs["solve_error_text"] = str(e)[:200]
-obs["instantiated"] = inst
-entries = []
-texts = []
-for m in ("pycsugar", "enigma_csp", "cspuz_core"):
-    mod = sys.modules.get(m)
-    if mod is not None and hasattr(mod, "CALLS"):
-        for ent, text, reply in mod.CALLS:
-            entries.append(ent)
-            texts.append(text)
-log = os.environ.get("VERIF_WIRE_LOG")
-if log and os.path.exists(log):
-    for line in open(log):
-        try:
-            d = json.loads(line)
-        except ValueError:
-            continue
-        if d.get("entry") == "sugar-exe":
-            entries.append("sugar-exe")
-            texts.append(d["text"])
+obs["instantiated"] = list(inst)
+
+
+def snapshot():
+    entries, texts = [], []
+    for m in ("pycsugar", "enigma_csp", "cspuz_core"):
+        mod = sys.modules.get(m)
+        if mod is not None and hasattr(mod, "CALLS"):
+            for ent, text, reply in mod.CALLS:
+                entries.append(ent)
+                texts.append(text)
+    log = os.environ.get("VERIF_WIRE_LOG")
+    if log and os.path.exists(log):
+        for line in open(log):
+            try:
+                d = json.loads(line)
+            except ValueError:
+                continue
+            if d.get("entry") == "sugar-exe":
+                entries.append("sugar-exe")
+                texts.append(d["text"])
+    return entries, texts
+
+
+entries, texts = snapshot()
 obs["entries"] = entries
+# ---- later solves in the SAME process (history): other per-call names, a re-assigned default
+obs["followups"] = []
+for fu in cfg.get("followups") or []:
+    rec = {}
+    if "default_backend" in fu:
+        cspuz.config.default_backend = fu["default_backend"]
+    n_inst = len(inst)
+    before, _ = snapshot()
+    s2 = cspuz.Solver()
+    x2 = s2.bool_var()
+    s2.ensure(x2 | ~x2)
+    s2.add_answer_key(x2)
+    b2 = fu.get("backend_arg")
+    try:
+        if fu.get("call") == "solve":
+            import warnings
+
+            with warnings.catch_warnings():
+                warnings.simplefilter("ignore")
+                rec["result"] = s2.solve(backend=b2) if b2 is not None else s2.solve()
+        else:
+            rec["result"] = s2.find_answer(backend=b2) if b2 is not None else s2.find_answer()
+    except Exception as e:
+        rec["solve_error"] = type(e).__name__
+        rec["solve_error_text"] = str(e)[:200]
+    rec["instantiated"] = inst[n_inst:]
+    after, _ = snapshot()
+    for e in before:
+        after.remove(e)
+    rec["entries"] = after
+    obs["followups"].append(rec)
 obs["text_native_connected"] = any("graph-active-vertices-connected" in t for t in texts)
 obs["text_native_division"] = any("graph-division" in t for t in texts)
 obs["phase"] = "done"
